@@ -63,6 +63,9 @@ def execute(plan):
         elif plan["property"] == "C12":
             from statesim import policy
             result = policy.run_plan(plan, root)
+        elif plan["property"] == "C13" and plan.get("kind") == "chains":
+            from statesim import chains
+            result = chains.run_plan(plan, root)
         elif plan["property"] == "C13":
             from statesim import scopes
             result = scopes.run_plan(plan, root)
@@ -186,7 +189,58 @@ def plan_C12(seed, tier):
 # C13
 # --------------------------------------------------------------------------------------------
 
+def plan_chains(seed, tier):
+    """File level histories (statesim.chains): fetch / save / remove state chains, foreign saves, crashes mid-download."""
+    nworkers = pick(seed, "nworkers", [2, 3, 3, 4])
+    gateways = ["", "gw1", "gw2"][:pick(seed, "ngw", [1, 2, 2, 3])]
+    workers = {}
+    for i in range(nworkers):
+        workers[f"net{i + 1}"] = {"gateway": pick(seed, f"gw{i}", gateways),
+                                  "host": pick(seed, f"host{i}", ["h1", "h2", "h3"][:pick(seed, "nhosts", [1, 2, 3, 3])])}
+    names = sorted(workers)
+    hosts = sorted({(d["gateway"], d["host"]) for d in workers.values()})
+    backing = pick(seed, "backing", [
+        {"s1": "customize", "customize": "install", "s2": "install", "install": ""},
+        {"s1": "install", "s2": "s1", "customize": "", "install": ""},
+        {"s1": "", "s2": "", "customize": "", "install": ""}])
+    states = ["s1", "s2", "customize", "install"]
+    memory = pick(seed, "memory", [False, True, True])
+    images = ["image1", "image2"] if memory and pick(seed, "twoimages", [0, 1]) else ["image1"]
+    initial = []
+    for h in hosts:
+        for kind in ("shared", "swarm"):
+            for st in states:
+                if pick(seed, f"init/{h}/{kind}/{st}", [0, 1, 1]):
+                    initial.append({"pool": [kind, list(h)], "state": st, "images": images, "memory": memory,
+                                    "version": pick(seed, f"initv/{h}/{kind}/{st}", ["v0", "v0", "v0", "v1"])})
+    steps, version = [], 1
+    for i in range(pick(seed, "nsteps", [2, 4, 8, 12, 20])):
+        op = pick(seed, f"op{i}", ["get", "get", "get", "get", "set", "unset", "foreign_save", "foreign_save", "lost_state"])
+        st = pick(seed, f"st{i}", states)
+        if op in ("foreign_save", "lost_state"):
+            version += 1
+            steps.append({"op": op, "pool": [pick(seed, f"fk{i}", ["shared", "swarm"]), list(pick(seed, f"fh{i}", hosts))],
+                          "state": st, "images": images, "memory": memory, "version": f"v{version}",
+                          "part": pick(seed, f"part{i}", ["all", "all", "memory", "top", "backing"])})
+            continue
+        me = pick(seed, f"me{i}", names)
+        scope = " ".join(s for s in ["own", "swarm", "cluster", "shared"] if pick(seed, f"sc{i}/{s}", [0, 1, 1, 1]))
+        candidates = [":" + SHARED_PATH] + [f"{w}:{SWARM_PATH}" for w in names]
+        chosen = [c for c in candidates if pick(seed, f"src{i}/{c}", [0, 1, 1])]
+        chosen.sort(key=lambda c: H(seed, "perm", i, c))
+        step = {"op": op, "worker": me, "scope": scope, "sources": chosen, "state": st, "images": images, "memory": memory}
+        if op == "get" and pick(seed, f"crash{i}", [0, 0, 0, 1]):
+            crashed = dict(step)
+            crashed["crash_at"] = pick(seed, f"crashat{i}", [0, 1, 2, 3, 4])
+            steps.append(crashed)
+        steps.append(step)
+    return {"seed": seed, "property": "C13", "engine": "statesim", "kind": "chains", "workers": workers, "backing": backing,
+            "initial": initial, "steps": steps, "decisions": {}, "neutral": []}
+
+
 def plan_C13(seed, tier):
+    if pick(seed, "kind", ["scopes", "scopes", "chains"]) == "chains":
+        return plan_chains(seed, tier)
     nworkers = pick(seed, "nworkers", [2, 3, 3, 4, 5, 6])
     gateways = ["", "gw1", "gw2"][:pick(seed, "ngw", [1, 2, 2, 3])]
     workers = {}
@@ -254,7 +308,10 @@ RULES["C12"] = ("histories of check/get/set/unset/push/pop calls on 1-3 vms with
 RULES["C13"] = ("histories of show/get/set/unset/root operations by 2-6 workers placed on 1-3 gateways x 1-3 hosts, each with a random subset of "
                "pool_scope and a random subset/permutation of sources (shared path, every worker's swarm and shared path), over pools whose "
                "contents evolve (other workers' sets, lost writes, invalid caches); the contact log of the fake transport is compared with an "
-               "independently written scope/proximity model. Distinct = distinct final placement of states; non-trivial = a remote source was contacted.")
+               "independently written scope/proximity model. One third of the histories are file-level: the real chain transport over an in-memory file store, "
+               "states with backing chains of depth 0-2 on 1-2 images with or without a memory file, other workers saving new versions of single files, lost states and a "
+               "crash in the middle of a download followed by a retry; after a fetch the cache must equal the closest permitted source, an identical copy must not be "
+               "downloaded again, saves and removals must reach every permitted mirror. Distinct = distinct final placement of states/files; non-trivial = a remote source was contacted.")
 ASSUMPTIONS = {
     "C17": ["QemuImg is replaced by a fake that prints qemu-img snapshot listings; external states are empty files in a scratch directory",
             "vm-level set/unset are modelled as their per-image file operations (the real _set/_unset need a running vm)"],
@@ -271,7 +328,8 @@ REAL = {
 }
 REAL["C12"] = ["avocado_i2n.states.setup: check_states/get_states/set_states/unset_states/push_states/pop_states, _parametric_object_iteration, _state_check_chain",
               "virttest Params.object_params"]
-REAL["C13"] = ["pool.SourcedStateBackend.show/get/set/unset/get_sources/get_source_scope", "pool.RootSourcedStateBackend.check_root/set_root/unset_root"]
+REAL["C13"] = ["pool.SourcedStateBackend.show/get/set/unset/get_sources/get_source_scope", "pool.RootSourcedStateBackend.check_root/set_root/unset_root",
+               "file-level histories: pool.QCOW2ImageTransfer.show/get/set/unset/compare_chain/transfer_chain, pool.TransferOps.list_paths/compare/download/upload/delete (dispatch)"]
 STUBS = {
     "C17": ["virttest QemuImg (fake snapshot listing)", "disk (scratch directory + in-memory internal snapshot table)"],
 }
@@ -280,7 +338,8 @@ STUBS = {
 STUBS["C12"] = ["state backends (one in-memory backend with a call log and an injectable error)", "test environment / vm objects"]
 
 
-STUBS["C13"] = ["local backend (_show/_get/_set/_unset/_check_root/...: in-memory cache per host)", "transport (recording fake over the simulated pools)"]
+STUBS["C13"] = ["local backend (_show/_get/_set/_unset/_check_root/...: in-memory cache per host)", "transport (recording fake over the simulated pools) in the scope-level histories",
+                "file-level histories: leaf file operations *_local/*_remote (in-memory file store per host directory) and get_dependency (backing chain given by the scenario; the real one asks qemu-img)"]
 
 
 def nontrivial(prop, plan, result):
